@@ -118,6 +118,11 @@ def build_inputs(base, classes, tier):
                 for c in COMMODITIES[:max(2, n)]:
                     jobs.append(("implied_pair n=%d" % n, ["balance", "-X", c] + now + [p]))
                     jobs.append(("implied_pair n=%d" % n, ["balance", "-X", c, "--historical"] + now + [p]))
+                # no rate at all: which commodity the error names must not depend on the walk
+                p = write(d, "norate.ledger", "2024/01/01 fund\n" + "".join("    Assets:Wallet  %d %s\n" % (i + 2, c) for i, c in enumerate(COMMODITIES[:n]))
+                          + "    Equity:Opening\n\n2024/01/02 other\n    Assets:Q  1 QQQ\n    Equity:Q\n")
+                jobs.append(("missing_rate n=%d" % n, ["balance", "-X", "QQQ"] + now + [p]))
+                jobs.append(("missing_rate n=%d" % n, ["register", "-X", "QQQ"] + now + [p]) if False else ("missing_rate n=%d" % n, ["balance", "-X", "QQQ", "--historical"] + now + [p]))
                 p = write(d, "sum_as_cost.ledger", "2024/01/01 t\n    Assets:A  1 QQQ @ (%s)\n    Equity:Opening\n" % " + ".join("%d %s" % (i + 1, c) for i, c in enumerate(COMMODITIES[:n])))
                 jobs.append(("pick_single n=%d" % n, ["balance", p]))
         if n >= 2:
@@ -186,7 +191,7 @@ def check(run):
                 run.report("crash_" + label.split(" ")[0], {"class": label, "argv": args, "_mode": "c13"}, {"status": o[0], "stderr": o[2].decode(errors="replace")[-500:]},
                            "crash: `okane %s` died with signal %d" % (" ".join(args), -o[0]))
                 break
-        expect_ok = not label.startswith(("error_text", "pick_single", "corpus")) and not (label.startswith("implied_pair") and "--historical" in args)
+        expect_ok = not label.startswith(("error_text", "pick_single", "corpus", "missing_rate")) and not (label.startswith("implied_pair") and "--historical" in args)
         if expect_ok and any(o[0] != 0 for o in outs):
             bad = next(o for o in outs if o[0] != 0)
             raise ToolError("generator defect: `okane %s` (class %s) is expected to succeed but fails: %s" % (" ".join(args), label, bad[2].decode(errors="replace")[-600:]))
